@@ -85,7 +85,8 @@ func (s *resultStore) Add(results ...ocr2keepers.CheckResult) {
 
 	for _, r := range results {
 		v, ok := s.data[r.WorkID]
-		if !ok {
+		if !ok || time.Since(v.addedAt) > storeTTL {
+			// no entry, or an expired entry that gc has not collected yet
 			s.data[r.WorkID] = result{data: r, addedAt: time.Now()}
 			s.lggr.Printf("Result added for upkeep id '%s' and trigger '%+v'", r.UpkeepID.String(), r.Trigger)
 		} else if v.data.Trigger.BlockNumber < r.Trigger.BlockNumber {
